@@ -62,6 +62,7 @@ def frame(ctx, res, rule):
         if s_["pat"].get("p") == "tuple" and i_.get("k") == "if" and T.render(i_["cond"]) == "coloring":
             colour_ids |= {q["id"] for q in s_["pat"]["pats"] if q.get("p") == "bind"}
     pieces = []
+    pad_texts = []
     for n, par in T.walk(b["tree"]):
         if n.get("k") == "path" and T.local_of(n) in alias:
             p_ = par[-1] if par else {}
@@ -103,7 +104,30 @@ def frame(ctx, res, rule):
             else:
                 kind = "?(%s)" % r[:40]
             pieces.append(kind)
+            pad_texts.append((kind, r))
     seq = "".join(k for k in pieces if k != "c") if all(len(k) == 1 for k in pieces) else " ".join(pieces)
+    # the padding in front of a marker is computed from that marker's own line (R6 says over which text): the tab count taken
+    # up to `start` does not pad the end marker and vice versa
+    ps_ = [p_["pat"] for p_ in b["params"]]
+    own = {}
+    if len(ps_) >= 3 and all(p_.get("p") == "bind" for p_ in ps_[:3]):
+        for s_ in T.nodes(b["tree"], "let"):
+            if s_["pat"].get("p") == "bind" and s_.get("init") is not None:
+                cs = [c_ for c_ in T.nodes(s_["init"], "call") if T.short_path(T.callee(c_) or "").endswith("count_tabspace")]
+                if len(cs) == 1:
+                    r_ = T.render(cs[0]["args"][0])
+                    own[s_["pat"]["name"]] = "start" if r_.endswith("..%s]" % ps_[1]["name"]) else ("end" if r_.endswith("..%s]" % ps_[2]["name"]) else None)
+    crossed = []
+    seen_block = False
+    for kind, txt in pad_texts:
+        if kind == "B":
+            seen_block = True
+        elif kind == "P":
+            for nm, side in own.items():
+                if side and re.search(r"\b%s\b" % re.escape(nm), txt) and side != ("end" if seen_block else "start"):
+                    crossed.append((nm, "end" if seen_block else "start"))
+    if crossed:
+        res.add(Finding(rule, fn, "frame-padding", "the padding in front of the `%s` marker is computed from `%s`, the tab count of the other marker's line" % (crossed[0][1], crossed[0][0]), loc=loc))
     if re.match(r"^P*SNBP*E$", seq):
         res.holds(rule, fn, "frame", "appended pieces: %s" % " ".join(pieces))
     else:
@@ -221,6 +245,28 @@ def shown_lines(ctx, res, rule):
                 uses += 1
         if uses != 1:
             okb, why = False, "a line of the highlighted part is put back %d times" % uses
+    # the highlighted part is the region itself: from `start` to `end`, cut at the end of the last line
+    hl = []
+    for x, par in T.walk(b["tree"]):
+        if x.get("k") == "mcall" and x["name"] == "lines":
+            for y in T.nodes(x["recv"]):
+                if y.get("k") == "index" and T.render(T.peel_ref(y["base"])) == cname and T.peel(y["idx"]).get("k") == "struct":
+                    f = {z["name"]: T.render(z["e"]) for z in T.peel(y["idx"])["fields"]}
+                    if set(f) == {"start", "end"} and not any(q.get("k") == "call" and (T.callee(q) or "").endswith("::with_capacity") for q in par):
+                        hl.append((f["start"], f["end"]))
+    for hs, he in sorted(set(hl)):
+        if not okb:
+            break
+        ds, de = lets.get(hs), lets.get(he)
+        gs = eval_paths(ds[0]["init"]) if ds and len(ds) == 1 else ({((), hs)} if hs == sname else None)
+        ge = eval_paths(de[0]["init"]) if de and len(de) == 1 else ({((), he)} if he == ename else None)
+        ok_s = gs == {((), sname)}
+        ok_e = ge is not None and all((val == ename and any(k.startswith("ord(") and ename in k and v in ("<", "=") for k, v in dec)) or
+                                      (val != ename and any(k.startswith("ord(") and ename in k and v in (">", "=") for k, v in dec)) or
+                                      (val == ename and not dec) for dec, val in ge) and any(val == ename for _, val in ge)
+        if not (ok_s and ok_e):
+            okb, why = False, "the highlighted part is `%s..%s` (= %s .. %s), not the region `%s..%s` cut at the end of its last line" % (
+                hs, he, T.render(ds[0]["init"])[:40] if ds else hs, T.render(de[0]["init"])[:40] if de else he, sname, ename)
     # .. and one line break is appended behind them
     tails = [x for x, par in T.walk(b["tree"]) if x.get("k") == "mcall" and x["name"] == "push" and T.lit_value(T.peel_ref(x["args"][0])) == "\n"
              and not any(q.get("k") in ("if", "match", "loop", "for", "closure") for q in par) and "String" in (T.peel_ref(x["recv"]).get("ty") or "")
